@@ -266,7 +266,7 @@ func (p *Parser) lookupManipulatorFunc(funcName, optName string, pos token.Pos) 
 		return nil, logger.Errorf("%v: %v isn't a function", p.fset.Position(pos), funcName)
 	}
 
-	if 1 < sig.Results().Len() ||
+	if sig.Params().Len() < 2 || 1 < sig.Results().Len() ||
 		(sig.Results().Len() == 1 && !util.IsErrorType(sig.Results().At(0).Type())) {
 		return nil, logger.Errorf("%v: function %v cannot use for %v func", p.fset.Position(pos), funcName, optName)
 	}
